@@ -19,7 +19,7 @@ import (
 func init() {
 	ev.Register(&ev.Spec{
 		ID: "C13", Level: "exploration",
-		Rule: "server: grid msize x Tread/Treaddir count x file/directory size (both sides of the limit) x offsets against a real server over memfs, the reply-stream monitor checking every size field against the announced msize and the data against the file; client: ReadAt/WriteAt/Readdir/GetXattr of sizes around and far above the limit against a fake server that announced less than requested, the request-stream monitor checking request sizes and requested reply sizes. Non-trivial: count or object size within 16 bytes of, or above, the limit; distinct by (msize, kind, count class, size class).",
+		Rule:    "server: grid msize x Tread/Treaddir count x file/directory size (both sides of the limit) x offsets against a real server over memfs, the reply-stream monitor checking every size field against the announced msize and the data against the file; client: ReadAt/WriteAt/Readdir/GetXattr of sizes around and far above the limit against a fake server that announced less than requested, the request-stream monitor checking request sizes and requested reply sizes. Non-trivial: count or object size within 16 bytes of, or above, the limit; distinct by (msize, kind, count class, size class).",
 		Assume:  []string{"reference codec size accounting", "net.Pipe transport", "an Rlerror in place of shortened data is accepted unless it is the EFAULT of a recovered handler panic"},
 		Shards:  shards(8, 16),
 		Timeout: timeout(5*time.Minute, 40*time.Minute),
